@@ -165,8 +165,10 @@ pub fn rt_event(text: &[u8], origin: &str) -> Option<J> {
     let display = format!("{}", v);
     let vec = sonic_rs::to_vec(&v).ok()?;
     let sraw = { let mut de = sonic_rs::Deserializer::from_slice(text).use_rawnumber(); let rv: sonic_rs::Value = de.deserialize().ok()?; sonic_rs::to_string(&rv).ok()? };
+    // raw-number mode through the copying driver (the value is not at the start of the input: second document of a stream)
+    let sraw2 = { let mut buf = b"0 ".to_vec(); buf.extend_from_slice(text); let mut de = sonic_rs::Deserializer::from_slice(&buf).use_rawnumber(); let _first: sonic_rs::Value = de.deserialize().ok()?; let rv: sonic_rs::Value = de.deserialize().ok()?; drop(de); buf.iter_mut().for_each(|b| *b = b'#'); sonic_rs::to_string(&rv).ok()? };
     let dump_s = dump_value(&v2).unwrap_or_else(|e| json!({"t":"inconsistent","why":e}));
-    Some(json!({"ev":"rt","origin":origin,"sorted":cfg!(feature = "sort_keys"),"dump_s":dump_s,"t":bytes_j(text),"dump":dump,"s":bytes_j(s.as_bytes()),"s2":bytes_j(s2.as_bytes()),"pretty":bytes_j(pretty.as_bytes()),
+    Some(json!({"ev":"rt","sraw2":bytes_j(sraw2.as_bytes()),"origin":origin,"sorted":cfg!(feature = "sort_keys"),"dump_s":dump_s,"t":bytes_j(text),"dump":dump,"s":bytes_j(s.as_bytes()),"s2":bytes_j(s2.as_bytes()),"pretty":bytes_j(pretty.as_bytes()),
                 "display":bytes_j(display.as_bytes()),"vec":bytes_j(&vec),"sraw":bytes_j(sraw.as_bytes())}))
 }
 
